@@ -677,6 +677,26 @@ public:
     }
     if (o.violated) return;
 
+    // (b2) a limit the run does not reach does not cut it short: EXIT is instruction `steps` (1-based),
+    // --max-cycles N allows N+1 instructions, so from N = steps-1 on the run is the ordinary run: same
+    // output, same input consumption, same files and the program's exit value as its status.
+    if (v.hasMax && exited && steps >= 2) {
+      static const uint64_t slack[] = {0, 0, 1, 2, 1000};
+      uint64_t k = steps - 1 + slack[v.maxCycles % 5];
+      for (size_t h = 0; h < hosts.size() && !o.violated; h++) {
+        RunRes r = tool[h] ? runTool(v, hosts[h], false, k, false, "") : runLib(v, hosts[h], false, k, 0);
+        sim::g_log.evs("limit_not_reached_run", hosts[h].str() + " -> " + r.t.str() + " out=" + std::to_string(r.out.size()), k);
+        o.count("fault.max_cycles_at_or_after_exit");
+        if (hung(r.t)) { o.note = "skipped:watchdog"; o.count("probe.watchdog_hit"); return; }
+        RunRes a = full[h], b = r;
+        if (tool[h]) { a.t.status &= 0xFF; b.t.status &= 0xFF; }
+        std::string d = r.t.kind == sim::Trapped::CRASHED ? "hexsim " + r.t.str() : cmpRuns(b, a, true, true);
+        if (!d.empty()) o.violate("host_state_dependent", "--max-cycles " + std::to_string(k) + " lets the run finish (EXIT is instruction " + std::to_string(steps) + ") but changes it: " + d + " [host " + hosts[h].str() + ", image " + v.progName + "]", "host_state_dependent:limit_not_reached");
+      }
+      o.stateKeys.push_back("c12 limit_not_reached slack=" + std::to_string(slack[v.maxCycles % 5]));
+    }
+    if (o.violated) return;
+
     // (d) --dump lists the loaded words and runs nothing: the same text and status in every host state
     // (it prints one word beyond the image, which must read as zero like any uncovered word).
     if (v.dump) {
